@@ -5,7 +5,7 @@
   fixes/C41-window-tables.patch, compared with the real reader on every run) on top of the
   C20 cursor model.
 -/
-import Influx.Lemmas.FluxTable
+import Influx.Lemmas.FluxTableEmpty
 
 namespace Influx.Props.C41
 open Influx.WindowAgg Influx.FluxTable Influx.Spec.C41
@@ -114,6 +114,126 @@ theorem C41_selector_rows (q : Req) (h : 0 < q.every) (arr : List (Pt Val)) :
   intro p _
   rw [glb_eq_at q h, clip_eq]
   rfl
+
+/-- every window counted by `countFrom` starts before the query stop -/
+theorem start_lt_of_counted (q : Req) (h : 0 < q.every) :
+    ∀ (n : Nat) (i k : Int), countFrom q i = n → i ≤ k → k < i + n → q.offset + k * q.every < q.bstop := by
+  intro n
+  induction n with
+  | zero => intro i k _ h1 h2; omega
+  | succ m ih =>
+    intro i k hc h1 h2
+    by_cases hge : q.offset + i * q.every ≥ q.bstop
+    · simp [countFrom, hge] at hc
+    · have hs := countFrom_succ q h i (by omega)
+      by_cases hk : k = i
+      · subst hk; omega
+      · exact ih (i + 1) k (by omega) (by omega) (by omega)
+
+/-- **Window tables without createEmpty: rows ↔ cursor points.**  Every value the storage cursor
+    returns (an aggregate stamped with its window's stop, or — ForceAggregate — a selected point)
+    becomes exactly one row, in order, carrying its own window clipped to the bounds and that
+    value; no row is null, none is lost, whatever the array boundaries of the cursor. -/
+theorem C41_window_rows (q : Req) (h : 0 < q.every) (hce : q.createEmpty = false) (isAgg : Bool)
+    (fill : Option Val) (wb : Int) (arrs : List (List (Pt Val)))
+    (hne : ∀ a ∈ arrs, a ≠ []) (hw : ∀ a ∈ arrs, ∀ p ∈ a, WellPlaced q isAgg p.1)
+    (fuel : Nat) (hf : arrs.length < fuel) :
+    (drainBuffers (advanceW q isAgg fill) fuel ⟨[], [], arrs, wb⟩).flatten =
+      arrs.flatten.map fun p => mkRow q fill (clipped q (pointWin q isAgg p.1)) (some p.2) := by
+  rw [drainW_own q h hce isAgg fill wb arrs [] fuel hne hw hf]
+  simp [List.map_flatten]
+
+/-- **Window tables with createEmpty: rows ↔ windows.**  If the cursor returns one value per
+    non-empty window, in window order, all inside the bounds, the table consists of one buffer
+    with one row for every window `widx bstart … widx (bstop-1)`: the window clipped to the
+    bounds and the cursor's value for that window, or null (the fill value 0 for count) if the
+    cursor has none — whatever the array boundaries of the cursor. -/
+theorem C41_createEmpty_rows (q : Req) (h : 0 < q.every) (hb : q.bstart < q.bstop) (hce : q.createEmpty = true)
+    (isAgg : Bool) (fill : Option Val) (arrs : List (List (Pt Val)))
+    (hne : ∀ a ∈ arrs, a ≠ []) (harr : arrs ≠ [])
+    (hw : ∀ p ∈ arrs.flatten, WellPlaced q isAgg p.1)
+    (hinc : arrs.flatten.Pairwise (fun a b => pointWin q isAgg a.1 < pointWin q isAgg b.1))
+    (hrange : ∀ p ∈ arrs.flatten, widx q q.bstart ≤ pointWin q isAgg p.1 ∧
+      pointWin q isAgg p.1 < widx q q.bstart + countFrom q (widx q q.bstart))
+    (fuel : Nat) (hf : 1 ≤ fuel) :
+    drainBuffers (advanceW q isAgg fill) fuel ⟨[], [], arrs, (q.win.getLatestBounds q.bstart).index⟩ =
+      [(intRange (widx q q.bstart) (countFrom q (widx q q.bstart))).map fun k =>
+        mkRow q fill (clipped q k) (valueAt q isAgg arrs.flatten k)] := by
+  obtain ⟨fuel', rfl⟩ : ∃ m, fuel = m + 1 := ⟨fuel - 1, by omega⟩
+  rw [glb_index q h]
+  generalize hi0 : widx q q.bstart = i0 at *
+  generalize hn : countFrom q i0 = n at *
+  cases arrs with
+  | nil => exact absurd rfl harr
+  | cons a r =>
+    have ha : a ≠ [] := hne a (by simp)
+    have hr : NoEmpty r := fun x hx => hne x (by simp [hx])
+    have hae : a.isEmpty = false := by cases a with | nil => exact absurd rfl ha | cons => rfl
+    have hstart : ¬ (q.win.at i0).start ≥ q.bstop := by
+      have := widx_spec q h q.bstart
+      rw [hi0] at this
+      rw [at_start]; omega
+    have hfuel : countFrom q i0 ≤ windowFuel q i0 := by
+      rw [hn]
+      have hn' := hn
+      unfold countFrom at hn'
+      rw [at_start] at hstart
+      rw [if_neg hstart] at hn'
+      unfold windowFuel
+      rw [at_start, ← hn']
+      have := Int.ediv_le_ediv h (show q.bstop - 1 - (q.offset + i0 * q.every) ≤ q.bstop - (q.offset + i0 * q.every) by omega)
+      omega
+    have henum := enumWindows_spec q h hb (windowFuel q i0) i0 hfuel
+    rw [hn] at henum
+    -- first buffer
+    have hwin : ∀ k, i0 ≤ k → k < i0 + n → q.offset + k * q.every < q.bstop :=
+      fun k h1 h2 => start_lt_of_counted q h n i0 k hn h1 h2
+    have halign := mergeL_align q h isAgg n i0 (a ++ r.flatten)
+      (by simpa using hw) (by simpa using hinc) (fun p hp => (hrange p (by simpa using hp)).1) hwin
+    have hfilter : (a ++ r.flatten).filter (fun p => decide (i0 + n ≤ pointWin q isAgg p.1)) = [] := by
+      rw [List.filter_eq_nil_iff]
+      intro p hp
+      have := (hrange p (by simpa using hp)).2
+      simp; omega
+    rw [hfilter] at halign
+    have habs := mergeValues_abs q isAgg ((intRange i0 n).map fun k => (clipped q k).2) ⟨a, a, r, i0 + n⟩ hr
+    simp only [WState.remaining] at habs
+    rw [halign] at habs
+    have hrem := congrArg Prod.fst habs.1
+    have hvals := congrArg Prod.snd habs.1
+    simp only at hrem hvals
+    -- the state after the merge has nothing left
+    generalize hs3 : mergeValues q isAgg ⟨a, a, r, i0 + n⟩ ((intRange i0 n).map fun k => (clipped q k).2) = res at *
+    obtain ⟨s3, vs⟩ := res
+    simp only at hrem hvals habs
+    have hcur : s3.cur = [] := (List.append_eq_nil_iff.mp hrem).1
+    have hrest : s3.rest = [] := by
+      have hfl := (List.append_eq_nil_iff.mp hrem).2
+      cases hr3 : s3.rest with
+      | nil => rfl
+      | cons x xs =>
+        have hx : x ≠ [] := habs.2 x (by simp [hr3])
+        rw [hr3] at hfl
+        simp at hfl
+        exact absurd hfl.1 hx
+    have hadv : advanceW q isAgg fill ⟨[], [], a :: r, i0⟩ =
+        some (s3, (intRange i0 n).map fun k => mkRow q fill (clipped q k) (valueAt q isAgg (a ++ r.flatten) k)) := by
+      unfold advanceW
+      simp only [nextBuffer, List.isEmpty_nil, Bool.not_true, Bool.false_eq_true, ↓reduceIte, hae, hce, hstart, henum]
+      rw [List.map_map]
+      simp only [Function.comp_def]
+      rw [hs3]
+      simp only [Option.some.injEq, Prod.mk.injEq, true_and]
+      rw [hvals, zip_map_same, List.map_map]
+      rfl
+    simp only [drainBuffers, hadv, List.flatten_cons]
+    -- second advance: nothing left to read
+    have hnone : advanceW q isAgg fill s3 = none := by
+      unfold advanceW
+      simp [nextBuffer, hcur, hrest]
+    cases fuel' with
+    | zero => simp [drainBuffers]
+    | succ m => simp [drainBuffers, hnone]
 
 -- non-vacuity / sanity of the model on a concrete request: every 10, bounds [5,38), mean, createEmpty, time = _stop
 example : seriesTables 1000 ⟨.mean, 10, 3, 5, 38, true, .stop, false⟩ [[(23, .f 2), (33, .f 3)]]
